@@ -1,7 +1,7 @@
 """C10 - CBOR encoder / decoder round trip: heads, room, narrowing, callback wiring, cache, skip (DESIGN.md section 4, C10)."""
 from sa import rules as RU
 from sa.awslib import in_bounds
-from sa.cfg import dominators, ev_dominates
+from sa.cfg import Typestate, dominators, ev_dominates
 from sa.extract import library_units
 from sa.num import Num, Poly, Limit, State, entails
 from sa.rules import argstr, where
@@ -248,7 +248,30 @@ def room(R, P, widths):
                 mp[vals.get(b.case, b.case)] = cs[0].node["callee"]
         want = {"AWS_CBOR_TYPE_INDEF_BYTES_START": "cbor_encode_indef_bytestring_start", "AWS_CBOR_TYPE_INDEF_TEXT_START": "cbor_encode_indef_string_start", "AWS_CBOR_TYPE_INDEF_ARRAY_START": "cbor_encode_indef_array_start",
                 "AWS_CBOR_TYPE_INDEF_MAP_START": "cbor_encode_indef_map_start", "AWS_CBOR_TYPE_BREAK": "cbor_encode_break"}
-        R.check(mp == want, "ROOM", "indefinite-markers", "%s()" % t.name, "each indefinite start / break type is written with its own marker function", "marker dispatch is %s" % mp)
+        # what each public writer ends up calling: through the helper's switch on the type, through a marker function handed
+        # to the helper (which calls its parameter), or directly
+        pub = {"aws_cbor_encoder_write_indef_bytes_start": "AWS_CBOR_TYPE_INDEF_BYTES_START", "aws_cbor_encoder_write_indef_text_start": "AWS_CBOR_TYPE_INDEF_TEXT_START",
+               "aws_cbor_encoder_write_indef_array_start": "AWS_CBOR_TYPE_INDEF_ARRAY_START", "aws_cbor_encoder_write_indef_map_start": "AWS_CBOR_TYPE_INDEF_MAP_START", "aws_cbor_encoder_write_break": "AWS_CBOR_TYPE_BREAK"}
+        calls_param = {p_["n"] for p_ in t.params if any(RU.uncast(t, e.node.get("fn")) is not None and RU.uncast(t, e.node["fn"])["k"] == "var" and RU.uncast(t, e.node["fn"])["n"] == p_["n"] for e in t.indirect_calls())}
+        got = {}
+        for name, ty in sorted(pub.items()):
+            g = P.fn(name)
+            if g is None:
+                continue
+            direct = [e.node["callee"] for e in g.all_events() if e.kind == "call" and (e.node.get("callee") or "").startswith("cbor_encode_")]
+            if direct:
+                got[ty] = direct[0] if len(direct) == 1 else direct
+                continue
+            for e in g.calls(t.name):
+                for i, a_ in enumerate(e.node["a"]):
+                    x = RU.uncast(g, a_)
+                    while x is not None and x["k"] in ("decay", "cast") or (x is not None and x["k"] == "un" and x["op"] == "addr"):
+                        x = g.d(x["a"][0])
+                    if x is not None and x["k"] == "fn" and i < len(t.params) and t.params[i]["n"] in calls_param:
+                        got[ty] = x["n"]
+                    elif x is not None and g.is_const(x) is not None and vals.get(g.is_const(x)) in mp:
+                        got[ty] = mp[vals[g.is_const(x)]] if vals[g.is_const(x)] == ty else "%s (asks for %s)" % (mp[vals[g.is_const(x)]], vals[g.is_const(x)])
+        R.check(got == want, "ROOM", "indefinite-markers", "%s()" % t.name, "each indefinite start / break writer ends in its own marker function", "marker dispatch is %s" % got)
 
 
 def narrow(R, P):
@@ -678,11 +701,45 @@ def skip(R, P):
         body = [(h, b) for h, b in loops.items() if e.blk in b]
         okI = len(body) == 1
         if okI:
-            H = f.blocks[body[0][0]]
-            # a test-first loop on next_type != BREAK whose header dominates the consume, with a peek before the loop
-            okI = H.term == "while" and "next_type" in f.show(H.cond) and "!=" in f.show(H.cond) and body[0][0] in dom.get(e.blk, ())
-            pk = f.calls("aws_cbor_decoder_peek_type")
-            okI = okI and len(pk) == 2 and any(p.blk not in body[0][1] and ev_dominates(f, p, e, dom) for p in pk) and any(p.blk in body[0][1] and ev_dominates(f, e, p, dom) for p in pk)
+            # every consume is preceded by a peek of its own (typestate: the peeked type is fresh, not the one left from the
+            # item before), runs only when that type is not BREAK, and the loop is left only on BREAK or with a failure -
+            # whether written `peek; while (t != BREAK) { consume; peek }` or `for (;;) { peek; if (t == BREAK) break; consume }`
+            region = set(body[0][1]) | {body[0][0]}
+            pk = [p for p in f.calls("aws_cbor_decoder_peek_type")]
+
+            def is_break_test(c_, p_, want):
+                g_ = RU.cmp_norm(f, c_, p_)
+                if not g_ or g_[2] is None or g_[1] != want:
+                    return False
+                sides = {f.show(RU.uncast(f, g_[0])), f.show(RU.uncast(f, g_[2]))}
+                return "AWS_CBOR_TYPE_BREAK" in sides and any(argstr(f, p.node, 1) in sides for p in pk)
+            ts_ = Typestate(f, "stale", lambda ev, st_: "fresh" if any(ev is p for p in pk) else ("stale" if ev is e else st_))
+            okI = ts_.before.get(e.pos, set()) == {"fresh"}
+            okI = okI and any(is_break_test(c_, p_, "!=") for c_, p_, b_ in RU.guards(f, e, dom))
+            from sa.cfg import edges as _edges
+            for b_ in sorted(region):
+                for succ, cnd, pol in _edges(f, b_):
+                    if succ in region or f.blocks[b_].noreturn:
+                        continue
+                    if cnd is not None and isinstance(pol, bool) and is_break_test(cnd, pol, "=="):
+                        continue
+                    # otherwise the way out must end in a failing return
+                    seen_, work_, fails = set(), [succ], True
+                    while work_:
+                        x_ = work_.pop()
+                        if x_ in seen_ or x_ in region:
+                            continue
+                        seen_.add(x_)
+                        rr = [el for el in f.blocks[x_].elems if el["k"] == "ret"]
+                        if rr:
+                            v_ = RU.uncast(f, rr[0]["a"][0]) if rr[0].get("a") else None
+                            if v_ is None or f.is_const(v_) == 0:
+                                fails = False
+                            continue
+                        if len(f.blocks[x_].elems) > 3:
+                            fails = False
+                        work_.extend(s2 for s2, _, _ in _edges(f, x_))
+                    okI = okI and fails and bool(seen_)
     R.check(okI and ind and {"INDEF_BYTES_START", "INDEF_TEXT_START", "INDEF_ARRAY_START", "INDEF_MAP_START"} <= set(ind[0][0]), "SKIP", "indefinite:break-tested-before-each-item", where(f, ind[0][1][0]) if ind else f.name,
             "peek, then while (next != BREAK) { consume; peek }: an empty indefinite container is skipped correctly",
             "the indefinite-length skip consumes an item before testing for the break (an empty container swallows the break and the following item)")
